@@ -49,7 +49,7 @@ CHECKS = {
     'Theorems over any field: code matrix inverse, sum P_i = P_total, words regroup by configuration, mass telescopes, empty configuration = resolvent, '
     'expected counts, first-step recursion, _unfold / _get_partitions / distinct orderings specs. Real get_mutation_config diffed against the model in '
     'exact rational arithmetic (1e-10), plus independent numpy oracles for Laplace transform, mass, recursion, folded sum.',
-    'PT4 (probabilistic reading of the resolvent) is textbook; non-negativity of the resolvent is measured (partial). '),
+    'PT4 (probabilistic reading of the resolvent) is textbook; non-negativity of the resolvent and 0 <= probability <= 1 are proved (resolvent_nonneg, config_orderings_prob_nonneg / _le_one, mutConfigProb_nonneg) under sign hypotheses on the generator that the state-space theorems of C04 provide (partial: PT4 only). '),
 }
 
 _P = {
@@ -68,7 +68,7 @@ _P = {
     'modelled in PGModel/Api.lean, theorems api_window_additive / api_routes_agree / api_explicit_zero_*, real moment()/accumulate() diffed against it.', PT),
  'C11': entry('Lean 4 proof (reward identities on every block-counting state, linearity of means, both spaces lump one labelled process) + relational oracle',
     'Theorems sum_sfs_eq_tbl, weighted_sfs_eq_n_height, folded_eq_fold, accumVal_one_linear; real sums/folds/spaces compared at 1e-9 of the raw scale; '
-    'reward vectors diffed exactly against the model.', 'Second-order identities rely on multilinearity proved for k=1 (partial). '),
+    'reward vectors diffed exactly against the model.', 'Multilinearity in every reward slot is proved for all orders (accumVal_slot_linear, C11_sum_cov); the floating-point closeness of the real sums is measured (partial). '),
  'C12': entry('Lean 4 proof (deme/locus reward decompositions, linearity, unreachable classes) + relational oracle on the real code',
     'Theorems deme_rewards_sum_one, deme_prod_sum, tbl_eq_sum_tblLocus, accumVal_congr_closed; real marginal sums, covariance sums, symmetry, PSD, '
     'empty-deme zeros.', 'PSD needs the probabilistic representation (partial, measured). '),
